@@ -52,6 +52,26 @@ CHECKS["C05"] = dict(
     design_ref="DESIGN.md section 4, C05 and nv/bisim.py",
     note="Trusted: the AM (bound to C by C06); the slack rules in nv/bisim.py; byte representatives from the union partition of both machines; capped pairs are reported as capped.")
 
+CHECKS["C08"] = dict(
+    category="model_checking",
+    technique="explicit-state product search: compiled case machine x parallel product of per-pattern derivative automata, to a fixpoint, for every clause-pattern set up to 4 clauses",
+    text="All sets of 2..4 clauses over a 14-pattern menu (prefix-sharing literals, case-insensitive literals, open and closed regexes, several patterns per clause), "
+         "x body variants (finish code per clause, else alone, else body starting with a match, empty body, else combined with a pattern) x greedy/priority assignments x the lexer shape "
+         "(greedy case in a yielding loop) are compiled; for each accepted set the joint state space of the abstract machine and the parallel pattern automata is explored completely. "
+         "The finish/yield code observed identifies the clause that ran: it must be the clause whose pattern equals the consumed bytes (highest priority for greedy, maximal munch), "
+         "else/FAIL exactly when no pattern is live, with the else body starting at the offending byte.",
+    design_ref="DESIGN.md section 4, C08",
+    note="Trusted: derivative automata; AM (bound by C06); clause bodies restricted to finish/yield/one literal so that the executed clause is observable; pattern menu and <=4 clauses (small scope).")
+CHECKS["C16"] = dict(
+    category="model_checking",
+    technique="explicit-state product search: compiled machine x restart automaton derived from our own pattern AST, to a fixpoint, for every wait pattern x context",
+    text="Every wait pattern of a 20-pattern menu and every concatenation of two, in six contexts (plain, inside try/catch with a handler that finishes with a tell-tale code, in a loop with a hook, "
+         "as a catch handler entered at the offending byte, and the first two with EOF support) is compiled; the joint state space of the abstract machine and the restart automaton "
+         "(delta(q,c) if live, else delta(q0,c) if live, else q0) is explored completely. FAIL and the handler are never reachable, the statement after the wait fires exactly when the restart "
+         "automaton completes, end() during a wait reports FAIL without entering a handler.",
+    design_ref="DESIGN.md section 4, C16",
+    note="Trusted: derivative automata and the restart construction; AM (bound by C06); patterns the compiler rejects (open-ended ones followed by a strict action) are counted, not judged.")
+
 NOT_YET = {
 }
 
